@@ -115,3 +115,26 @@ pub fn uncounted<T>(f: impl FnOnce() -> T) -> T {
     COUNTING.store(was, Ordering::Relaxed);
     r
 }
+
+/// the byte strings the source under test mentions as literals (written by tools/extract.py --dict, path in FBV_DICT),
+/// multi-byte tokens first; empty when the variable is not set
+pub fn dict() -> Vec<Vec<u8>> {
+    let path = match std::env::var("FBV_DICT") {
+        Ok(p) => p,
+        Err(_) => return vec![],
+    };
+    let txt = std::fs::read_to_string(path).unwrap_or_default();
+    let mut v: Vec<Vec<u8>> = txt
+        .lines()
+        .filter_map(|l| {
+            let l = l.trim();
+            if l.is_empty() || l.len() % 2 != 0 {
+                return None;
+            }
+            (0..l.len() / 2).map(|i| u8::from_str_radix(&l[2 * i..2 * i + 2], 16).ok()).collect::<Option<Vec<u8>>>()
+        })
+        .collect();
+    v.sort_by_key(|t| (if t.len() > 1 { 0 } else { 1 }, t.len(), t.clone()));
+    v.dedup();
+    v
+}
